@@ -462,14 +462,26 @@ impl Property for C13 {
         }
         let name;
         if tier == Tier::Thorough {
-            for i in 0..al.len() {
-                for j in i..al.len() {
-                    for k in j..al.len() {
-                        push(&[&al[i], &al[j], &al[k]], &mut cases);
+            // (size 3 over the core of the alphabet: the later additions - namespaced `on:` names,
+            // JSX-valued attributes - take part in the pairs and in the random tier; the full
+            // cube would be 1.9 million cases held in memory)
+            let core: Vec<&AAttr> = al
+                .iter()
+                .filter(|a| {
+                    !a.jsx.starts_with("on:")
+                        && !a.jsx.starts_with("nativeOn:")
+                        && !a.jsx.contains("=<")
+                        && !a.jsx.contains("={<")
+                })
+                .collect();
+            for i in 0..core.len() {
+                for j in i..core.len() {
+                    for k in j..core.len() {
+                        push(&[core[i], core[j], core[k]], &mut cases);
                     }
                 }
             }
-            name = format!("attribute sequences: all ordered pairs and all multisets of size 3 over {} abstract attributes x 2 hosts", al.len());
+            name = format!("attribute sequences: all ordered pairs over {} abstract attributes and all multisets of size 3 over {} of them x 2 hosts", al.len(), core.len());
         } else {
             name = format!("attribute sequences: all ordered sequences of length <=2 over {} abstract attributes x 2 hosts", al.len());
         }
